@@ -266,9 +266,12 @@ structure SliceOk (w : World) (a : Arena) (s : Slice) : Prop where
   ext : ∀ b, s.region = .ext b → s.off + s.len ≤ (w.exts.getD b []).length
   chunk : ∀ c, s.region = .chunk c → c < w.next ∧ ∀ ca, a.cache = some ca → ca.chunk = c → s.off + s.len ≤ ca.bump
 
-/-- Owned slices in the same chunk are disjoint, in allocation order (A.2 item 6). -/
+/-- Owned slices in the same chunk are disjoint (A.2 item 6).  (Copies are also in allocation order;
+sub-slices of an anchored `read_n` allocation pushed borrowed — the codecs' anchored input — are not:
+a size header copied in between lies ABOVE the rest of the anchored range.) -/
 def SlicesOrdered (l : List Slice) : Prop :=
-  l.Pairwise (fun a b => ∀ c, a.region = .chunk c → b.region = .chunk c → a.off + a.len ≤ b.off)
+  l.Pairwise (fun a b => ∀ c, a.region = .chunk c → b.region = .chunk c →
+    a.off + a.len ≤ b.off ∨ b.off + b.len ≤ a.off)
 
 /-- Logical offset (bytes appended since the last clear) of the start of the `j`-th unconsumed slice. -/
 def sliceStart (v : Iov) (j : Nat) : Nat := v.consumedSize + sumLens (v.slices.take j)
@@ -290,7 +293,6 @@ structure IovInv (w : World) (v : Iov) : Prop where
   slices_ok : ∀ s ∈ v.slices, SliceOk w v.arena s
   ordered : SlicesOrdered v.slices
   size_eq : v.consumedSize + sumLens v.slices = v.logicalSize
-  anchors_pos : ∀ a ∈ v.anchors, 0 < a.count
   anchors_sum : sumCounts v.anchors = v.slices.length
   cache_fresh : ∀ ca, v.arena.cache = some ca → ca.chunk < w.next
   br_ok : ∀ e ∈ v.backrefs, BrOk v e
@@ -408,7 +410,8 @@ theorem optimize_cases (v v' : Iov) (h : v.optimize = some v') :
               rw [this, setLast_append_singleton]
             · rw [hanc', setLast_append_singleton]
 
-theorem optimize_some (v : Iov) (hpos : ∀ a ∈ v.anchors, 0 < a.count) (hne : 2 ≤ v.slices.length → v.anchors ≠ []) :
+theorem optimize_some (v : Iov) (hpos : ∀ a, v.anchors.getLast? = some a → 0 < a.count)
+    (hne : 2 ≤ v.slices.length → v.anchors ≠ []) :
     ∃ v', v.optimize = some v' := by
   unfold Iov.optimize
   simp only
@@ -420,8 +423,8 @@ theorem optimize_some (v : Iov) (hpos : ∀ a ∈ v.anchors, 0 < a.count) (hne :
       rcases List.eq_nil_or_concat v.anchors with h | ⟨anc, a, h⟩
       · exact absurd h hne'
       · exact ⟨anc, a, by simpa using h⟩
-    have hap : 0 < a.count := hpos a (by rw [hanc]; simp)
     have hl : v.anchors.getLast? = some a := by rw [hanc]; simp
+    have hap : 0 < a.count := hpos a hl
     rw [hl]
     simp only
     rw [if_neg (by omega)]
@@ -447,7 +450,7 @@ theorem optimize_inv (w : World) (v v' : Iov) (hinv : IovInv w v)
     obtain ⟨hord1, hord2, hord3⟩ := hord
     refine ⟨?_, ?_, rfl, rfl, rfl, rfl, rfl⟩
     · refine
-        { slices_ok := ?_, ordered := ?_, size_eq := ?_, anchors_pos := ?_, anchors_sum := ?_,
+        { slices_ok := ?_, ordered := ?_, size_eq := ?_, anchors_sum := ?_,
           cache_fresh := hinv.cache_fresh, br_ok := ?_, br_sorted := hinv.br_sorted }
       · intro s hs
         simp only [List.mem_append, List.mem_singleton] at hs
@@ -469,16 +472,15 @@ theorem optimize_inv (w : World) (v v' : Iov) (hinv : IovInv w v)
         subst hy
         simp only [Region.chunk.injEq] at hyc
         subst hyc
-        exact hord3 x hx l (by simp) _ hxc hl
+        have h1 := hord3 x hx l (by simp) _ hxc hl
+        have h2 := hord3 x hx r (by simp) _ hxc hr
+        have hxp := (hinv.slices_ok x (by rw [hsl]; simp [hx])).pos
+        simp only
+        omega
       · have := hinv.size_eq
         rw [hsl] at this
         simp at this ⊢
         omega
-      · intro x hx
-        simp only [List.mem_append, List.mem_singleton] at hx
-        rcases hx with hx | rfl
-        · exact hinv.anchors_pos x (by rw [hanc]; simp [hx])
-        · simp; omega
       · have := hinv.anchors_sum
         rw [hsl, hanc] at this
         simp at this ⊢
@@ -534,35 +536,46 @@ theorem drainAnchors_cons (fuel n : Nat) (front : Anchor) (rest : List Anchor) :
     simp [Nat.min_eq_right hc', this]
 
 theorem drainAnchors_spec (fuel : Nat) : ∀ (anchors : List Anchor) (n : Nat),
-    (∀ a ∈ anchors, 0 < a.count) → n ≤ sumCounts anchors → anchors.length < fuel →
-    ∃ out, drainAnchors fuel anchors n = some out ∧ (∀ a ∈ out, 0 < a.count) ∧
-      sumCounts out + n = sumCounts anchors := by
+    n ≤ sumCounts anchors → anchors.length < fuel →
+    ∃ out, drainAnchors fuel anchors n = some out ∧ sumCounts out + n = sumCounts anchors := by
   induction fuel with
-  | zero => intro anchors n _ _ hf; omega
+  | zero => intro anchors n _ hf; omega
   | succ fuel ih =>
-    intro anchors n hpos hsum hfuel
+    intro anchors n hsum hfuel
     cases n with
-    | zero => exact ⟨anchors, drainAnchors_zero _ _, hpos, by simp⟩
+    | zero => exact ⟨anchors, drainAnchors_zero _ _, by simp⟩
     | succ n =>
       cases anchors with
       | nil => simp at hsum
       | cons front rest =>
         rw [drainAnchors_cons]
-        have hfp := hpos front (by simp)
         simp only [sumCounts_cons] at hsum
         by_cases hc : front.count ≤ n + 1
         · rw [if_pos hc]
-          obtain ⟨out, ho, hp, hs⟩ := ih rest (n + 1 - front.count)
-            (fun a ha => hpos a (by simp [ha])) (by omega) (by simp at hfuel; omega)
-          exact ⟨out, ho, hp, by simp only [sumCounts_cons]; omega⟩
+          obtain ⟨out, ho, hs⟩ := ih rest (n + 1 - front.count) (by omega) (by simp at hfuel; omega)
+          exact ⟨out, ho, by simp only [sumCounts_cons]; omega⟩
         · rw [if_neg hc]
-          refine ⟨_, rfl, ?_, ?_⟩
-          · intro a ha
-            simp only [List.mem_cons] at ha
-            rcases ha with rfl | ha
-            · simp only; omega
-            · exact hpos a (by simp [ha])
-          · simp only [sumCounts_cons]; omega
+          exact ⟨_, rfl, by simp only [sumCounts_cons]; omega⟩
+
+theorem dropZeroAnchors_sum (l : List Anchor) : sumCounts (dropZeroAnchors l) = sumCounts l := by
+  induction l with
+  | nil => rfl
+  | cons a t ih =>
+    unfold dropZeroAnchors
+    split
+    · rename_i h0; rw [ih, sumCounts_cons, h0, Nat.zero_add]
+    · rfl
+
+theorem dropZeroAnchors_isEmpty (l : List Anchor) : (dropZeroAnchors l).isEmpty = decide (sumCounts l = 0) := by
+  induction l with
+  | nil => rfl
+  | cons a t ih =>
+    unfold dropZeroAnchors
+    split
+    · rename_i h0; rw [ih, sumCounts_cons, h0, Nat.zero_add]
+    · rename_i h0
+      have : ¬ sumCounts (a :: t) = 0 := by rw [sumCounts_cons]; omega
+      rw [decide_eq_false this]; rfl
 
 theorem dropZeroAnchors_id (l : List Anchor) (h : ∀ a ∈ l, 0 < a.count) : dropZeroAnchors l = l := by
   cases l with
@@ -632,28 +645,17 @@ theorem consumeSlices_spec (w : World) (v : Iov) (count : Nat) (hinv : IovInv w 
     rcases Nat.le_total count v.slices.length with h | h
     · rw [Nat.min_eq_left h]
     · rw [Nat.min_eq_right h, List.drop_eq_nil_of_le h, List.drop_eq_nil_of_le (Nat.le_refl _)]
-  obtain ⟨out, hout, hopos, hosum⟩ := drainAnchors_spec (v.anchors.length + 1) v.anchors
-    (min count v.slices.length) hinv.anchors_pos (by rw [hinv.anchors_sum]; exact Nat.min_le_right _ _)
+  obtain ⟨out, hout, hosum⟩ := drainAnchors_spec (v.anchors.length + 1) v.anchors
+    (min count v.slices.length) (by rw [hinv.anchors_sum]; exact Nat.min_le_right _ _)
     (Nat.lt_succ_self _)
   rw [hout]
   simp only
-  rw [dropZeroAnchors_id out hopos]
-  have hempty : (v.slices.drop (min count v.slices.length)).isEmpty = out.isEmpty := by
-    have hl : (v.slices.drop (min count v.slices.length)).length = sumCounts out := by
-      have := hinv.anchors_sum
-      simp only [List.length_drop]; omega
-    cases hout' : out with
-    | nil =>
-      rw [hout'] at hl
-      simp only [sumCounts_nil, List.length_eq_zero_iff] at hl
-      rw [hl]; rfl
-    | cons a t =>
-      rw [hout'] at hl
-      have := hopos a (by rw [hout']; simp)
-      simp only [sumCounts_cons] at hl
-      cases hd : v.slices.drop (min count v.slices.length) with
-      | nil => rw [hd] at hl; simp at hl; omega
-      | cons _ _ => rfl
+  have hl : (v.slices.drop (min count v.slices.length)).length = sumCounts out := by
+    have := hinv.anchors_sum
+    simp only [List.length_drop]; omega
+  have hempty : (v.slices.drop (min count v.slices.length)).isEmpty = (dropZeroAnchors out).isEmpty := by
+    rw [dropZeroAnchors_isEmpty, ← hl]
+    cases v.slices.drop (min count v.slices.length) <;> simp
   rw [if_neg (by simp [hempty])]
   rw [foldl_add_eq_sum, htk, hdk]
   refine ⟨_, rfl, ?_, rfl, rfl⟩
@@ -669,9 +671,9 @@ theorem consumeSlices_spec (w : World) (v : Iov) (count : Nat) (hinv : IovInv w 
             have := sumLens_take_add_drop v.slices count
             have := hinv.size_eq
             simp only; omega
-          anchors_pos := hopos
           anchors_sum := by
             simp only [List.length_drop]
+            rw [dropZeroAnchors_sum]
             have := hinv.anchors_sum
             rcases Nat.le_total count v.slices.length with h | h
             · rw [Nat.min_eq_left h] at hosum; omega
@@ -741,7 +743,7 @@ theorem trim_consumed (w : World) (v : Iov) (s : Slice) (rest : List Slice) (r :
   rw [hs, List.pairwise_cons] at hord
   refine
     { inv :=
-        { slices_ok := ?_, ordered := ?_, size_eq := ?_, anchors_pos := hinv.anchors_pos, anchors_sum := ?_,
+        { slices_ok := ?_, ordered := ?_, size_eq := ?_, anchors_sum := ?_,
           cache_fresh := hinv.cache_fresh, br_ok := ?_, br_sorted := hinv.br_sorted }
       backrefs := rfl, logicalSize := rfl, arena := rfl, consumedSize := rfl,
       slices_ge := Nat.le_refl _, slices_end := by simp [hs], flat_take := ?_ }
